@@ -707,3 +707,54 @@ def leafs_partition(check: Check, repo: Repo, rule: str = "LEAFS-PARTITION") -> 
     check.ob(rule, chain, "ScalarLeafsRule: the 'needs a selection' side accepts Object, Interface and Union", not missing,
              "all composite kinds reach an arm that requires a selection" if not missing else
              f"{sorted(missing)} reach no arm: a field of that kind may be selected without sub-fields")
+
+
+# -- round 4 ------------------------------------------------------------------------------------------------
+
+NESTED_TRAVERSALS = {"get_variable_usages", "get_recursive_variable_usages"}
+NEUTRAL_HANDLERS = {
+    "enter_document", "leave_document", "enter_operation_definition", "leave_operation_definition",
+    "enter_fragment_definition", "leave_fragment_definition",
+}
+
+
+def nested_visit_neutral(check: Check, repo: Repo, classes: ClassIndex, rule: str = "NESTED-VISIT-NEUTRAL") -> None:
+    check.rule(
+        rule,
+        "ValidationContext.get_variable_usages / get_recursive_variable_usages run a *nested* traversal with the "
+        "TypeInfo object the main traversal is using, and memoise what they find for every other rule: a rule may ask for "
+        "them only from a handler of a document or definition node (enter/leave_operation_definition, "
+        "leave_fragment_definition ...), where no variable definition, argument or input value is open. Asked from inside "
+        "(enter_variable_definition, enter_field ...) the nested walk starts on top of the current input-type stack - the "
+        "parent input type recorded in every cached usage is the enclosing variable's type, and VariablesInAllowedPosition "
+        "reports OneOf errors that exist in no single rule's own run",
+    )
+    base = classes.get("validation.rules", "ASTValidationRule")
+    n = 0
+    for ci in classes.subclasses(base):
+        if ".custom" in ci.mod.name or not ci.mod.name.startswith("graphql.validation.rules."):
+            continue
+        methods = ci.methods()
+        # methods of the rule that (transitively through self.<method>()) start a nested traversal
+        direct = {name for name, m in methods.items() if any(
+            isinstance(c, (ast.Call, ast.Attribute)) and (last_attr(c) if isinstance(c, ast.Call) else c.attr) in NESTED_TRAVERSALS for c in walk_body(m))}
+        reach = set(direct)
+        changed = True
+        while changed:
+            changed = False
+            for name, m in methods.items():
+                if name in reach:
+                    continue
+                if any(isinstance(c, ast.Call) and isinstance(c.func, ast.Attribute) and unparse(c.func.value) == "self" and c.func.attr in reach for c in walk_body(m)):
+                    reach.add(name)
+                    changed = True
+        for name in sorted(reach):
+            if not name.startswith(("enter", "leave")):
+                continue
+            n += 1
+            ok = name in NEUTRAL_HANDLERS
+            check.ob(rule, methods[name], f"{ci.name}.{name}: starts a nested traversal with the shared TypeInfo", ok,
+                     "definition-level handler: the input-type stack is empty" if ok else
+                     "handler of a node inside a definition: the nested walk inherits the open input types and poisons the shared usage cache")
+    if n < 2:
+        raise AnalysisError("NESTED-VISIT-NEUTRAL: callers of get_variable_usages not found")
